@@ -690,7 +690,10 @@ def run(chk, prog):
             chk.broke('struct %s not found' % MODEL_STRUCT[kind])
         else:
             persisted = {fld for (t, c, fld, node) in wt}
-            for fd in [x for x in st.get('inner', []) if x.get('kind') == 'FieldDecl']:
+            if not wt:
+                # no table write of this model was recognised at all (the writer routine has another shape): the engine is blind, not the model unpersisted
+                chk.broke('%s: no table write call site of %s was recognised; field coverage is not decided' % (kind, w.name))
+            for fd in ([] if not wt else [x for x in st.get('inner', []) if x.get('kind') == 'FieldDecl']):
                 ty = (fd.get('type') or {}).get('qualType', '')
                 if ty in CONTAINER_TYPES:
                     if fd['name'] in persisted:
